@@ -14,12 +14,13 @@ LOCAL DU == INSTANCE CelDuration
 LOCAL TM == INSTANCE CelTime
 LOCAL ZZ == INSTANCE BigInt
 LOCAL DBX == INSTANCE Dbl
+LOCAL LT == INSTANCE CelLiteral
 LOCAL NM64 == INSTANCE Num64
 
 Rec == ndJsonDeserialize(IOEnv.TRACE)
 
-VARIABLES l, bad, ndev
-vars == << l, bad, ndev >>
+VARIABLES l, bad, ndev, kf
+vars == << l, bad, ndev, kf >>
 
 Expected(r) ==
   CASE r.op \in {"add", "sub", "mul", "div", "rem", "eq", "ne", "lt", "le", "gt", "ge", "in", "idx"} -> EV!ApplyBin(r.op, r.a, r.b)
@@ -47,6 +48,11 @@ Expected(r) ==
          LET s == TM!PlusDur(r.a, r.b, 1) IN
          IF s.k = "v" /\ ~s.dev THEN R(VBool(TRUE)) ELSE (IF s.dev THEN D(s) ELSE s)
     [] r.op = "lit" -> NL!LitExpected(r.a.cp)
+    [] r.op = "strlit" ->      \* a string / bytes literal evaluates to what its text denotes, or does not compile
+         LET d == LT!Decode(r.a.cp) IN
+         IF ~d.ok THEN E({"compile"})
+         ELSE IF d.dev THEN D(R(VBytes(d.val)))
+         ELSE R(IF d.bytes THEN VBytes(d.val) ELSE VStr(d.val))
     [] r.op = "toint" -> NL!ToIntFn(r.a)
     [] r.op = "touint" -> NL!ToUintFn(r.a)
     [] r.op = "todbl" -> NL!ToDoubleFn(r.a)
@@ -88,7 +94,7 @@ IntDblMatches(r) ==
   /\ DBX!WithinUlp(r.a.n.m, 0, [i \in 1..4 |-> IF i = 1 THEN r.out.v.b[1] % 32768 ELSE r.out.v.b[i]])
 Matches(r) ==
   IF r.op = "lit" /\ r.out.k \in {"v", "e", "compile_err"} THEN LitMatches(r)
-  ELSE IF r.out.k \notin {"v", "e", "cmp"} THEN FALSE                     \* panic / timeout
+  ELSE IF r.out.k \notin {"v", "e", "cmp", "compile_err"} THEN FALSE      \* panic / timeout
   ELSE IF r.op = "hcmp" THEN CmpMatches(r)
   ELSE IF r.op = "dblstr" THEN r.out.k = "v" /\ r.out.v.t = "str" /\ NL!DblTextDenotes(r.out.v.cp, r.a.b)
   ELSE IF r.op = "strdbl" THEN StrDblMatches(r)
@@ -96,17 +102,32 @@ Matches(r) ==
   ELSE IF r.op = "tsstr" THEN TsStrMatches(r)
   ELSE LET x == Expected(r) IN
        \/ x.dev
+       \/ (x.k = "e" /\ "compile" \in x.cs /\ r.out.k = "compile_err")
        \/ (x.k = "v" /\ r.out.k = "v" /\ Same(x.v, r.out.v))
        \/ (x.k = "e" /\ r.out.k = "e" /\ r.out.c \in x.cs)
 IsDev(r) == r.op \notin {"hcmp", "tsstr", "dblstr", "strdbl"} /\ Expected(r).dev
 
-Init == l = 1 /\ bad = << >> /\ ndev = 0
+\* second pass for cases the faithful specification rejects: is the observed behaviour exactly one of the
+\* known findings?  Returns the finding's id or "" (the check script decides whether that id is listed).
+KnownFinding(r) ==
+  IF r.op # "strlit" THEN ""
+  ELSE LET k1 == LT!KF_1_DoubleQuoteKeepsBackslash(r.a.cp)
+           k3 == LT!KF_3_RawTrailingBackslash(r.a.cp) IN
+       IF k1.ok /\ r.out.k = "v" /\ r.out.v.t = "str" /\ r.out.v.cp = k1.val THEN "KF-1"
+       ELSE IF LT!KF_2_RawTripleNul(r.a.cp) /\ r.out.k = "compile_err" THEN "KF-2"
+       ELSE IF k3.ok /\ r.out.k = "v" /\ r.out.v.t = "str" /\ r.out.v.cp = k3.val THEN "KF-3"
+       ELSE ""
+
+Init == l = 1 /\ bad = << >> /\ ndev = 0 /\ kf = << >>
 Next == /\ l <= Len(Rec)
         /\ l' = l + 1
-        /\ LET r == Rec[l] IN
-           /\ bad' = IF Matches(r) THEN bad ELSE Append(bad, r.id)
+        /\ LET r == Rec[l]
+               ok == Matches(r)
+               f == IF ok THEN "" ELSE KnownFinding(r) IN
+           /\ bad' = IF ok \/ f # "" THEN bad ELSE Append(bad, r.id)
+           /\ kf' = IF f # "" THEN Append(kf, << r.id, f >>) ELSE kf
            /\ ndev' = IF r.out.k \in {"v", "e"} /\ IsDev(r) THEN ndev + 1 ELSE ndev
 Spec == Init /\ [][Next]_vars
 Done == l = Len(Rec) + 1
-Report == Done => PrintT(<< "RESULT", ToJson([cases |-> Len(Rec), bad |-> bad, dev |-> ndev]) >>)
+Report == Done => PrintT(<< "RESULT", ToJson([cases |-> Len(Rec), bad |-> bad, dev |-> ndev, kf |-> kf]) >>)
 =============================================================================
